@@ -277,7 +277,7 @@ def cases(tier, seed):
 				if all(lo <= x <= hi for x in v):
 					yield {'kind': 'index', 'coll': coll, 'n': n, 'index': {'t': 'array', 'dt': dt, 'v': v}}
 			yield {'kind': 'index', 'coll': coll, 'n': n, 'index': {'t': 'npint', 'dt': dt, 'v': -1}}
-	for it in range(120 if tier == 'quick' else 1500):
+	for it in range(120 if tier == 'quick' else 8000):
 		n = rnd.randrange(0, 5)
 		ops = []
 		pre = rnd.random() < .3   # start with an observation of the untouched list (op that changes nothing)
